@@ -26,7 +26,11 @@ META = dict(
          "POW = range-checked power; MODPOW = truncated remainder of the power, modular inverse for -1; MODMUL; "
          "integer<->bytestring and boolean conversion round-trips; determinism. The real VM (built from the working tree) is "
          "compared with the specification per instruction on a boundary lattice, on zero/maximum-length byte strings, on "
-         "compound/control-flow templates and short sequences: state, stack (with sharing), gas; every script is run twice.",
+         "compound/control-flow templates and short sequences: state, stack (with sharing), gas; every script is run twice on fresh VMs and a third time after Reset() on a VM that has just executed one or two other "
+         "scripts ending in every way (HALT with values on stack and in slots, unhandled THROW, faults inside try/catch/finally, "
+         "ABORT, out of gas, depth and stack-size limits, fault in a nested call): outcome and a per-instruction trace (offset, "
+         "opcode, item counter, gas, stack/invocation/try depth) must equal the fresh run's; init_state is the specification of "
+         "what Reset re-establishes (C13_reset_is_init).",
     note="Correspondence, not translation: vm.go is tied to the specification only on the generated scripts. Trusted: the "
          "hand-written specification, the generated tables' translator, the two serialisers, Coq kernel/vm_compute, the harness.",
 )
